@@ -76,28 +76,39 @@ class RadarSession:
         return None
 
     def airplanes_rows(self):
-        """Rows of the Airplanes tab (it must be the current tab). None if the table is not on screen."""
+        """Rows of the Airplanes tab (it must be the current tab). None if the table is not on screen.
+        Column boundaries are taken from the header line, not from assumed widths."""
         txt = self.p.screen.text()
         hdr = None
         for i, line in enumerate(txt):
-            j = line.find("ICAO   Call sign")
-            if j >= 0:
-                hdr = (i, j)
+            if "ICAO" in line and "Call sign" in line and "Msgs" in line:
+                hdr = (i, line)
                 break
         if hdr is None:
             return None
-        i0, base = hdr
+        i0, h = hdr
+        labels = [("icao", "ICAO", 0), ("callsign", "Call sign", 0), ("lat", "Lat", 0), ("lon", "Long", 0), ("heading", "Heading", 0),
+                  ("alt", "Altitude", 0), ("fpm", "FPM", 3), ("speed", "Speed", 0), ("dist", "Distance", 0), ("msgs", "Msgs", 0)]
+        starts = []
+        pos = 0
+        for name, lab, back in labels:
+            j = h.find(lab, pos)
+            if j < 0:
+                return None
+            starts.append(j - back)  # "   FPM" is right aligned inside its cell
+            pos = j + len(lab)
+        right = h.rfind("│")
+        if right < 0:
+            right = len(h)
         rows = []
         for line in txt[i0 + 1:]:
             if "└" in line or "┘" in line:
                 break
-            seg = line[base:]
-            # a selected table shifts every row by the width of the highlight symbol
             vals = {}
-            off = 0
-            for w, n in zip(WIDTHS, NAMES):
-                vals[n] = seg[off:off + w].strip()
-                off += w + 1
+            for k, (name, _, _) in enumerate(labels):
+                a = starts[k]
+                b = starts[k + 1] if k + 1 < len(starts) else min(right, a + 6)
+                vals[name] = line[a:b].strip()
             if re.fullmatch(r"[0-9a-f]{6}", vals["icao"]):
                 rows.append(vals)
         return rows
